@@ -85,6 +85,19 @@ CLAIMED.update({
          T4, "§5 C20"),
 })
 
+E7 = "E7 clientloop"
+for _p, _extra in {
+  "C02": " Event-loop layer (E7): scripted-broker sessions over an in-memory transport under the paused clock with crash points after k bytes in either direction (every k for short scripts), 1-4 connections with generated session_present, channel backlog at failure time: at every poll boundary each accepted, not finally acknowledged QoS>0 publish is in the channel, `pending`, clean() of a clone or `collision`; resumed sessions put every carried publish / PUBREL on the wire again, session-less ones none; at quiescence everything is acknowledged.",
+  "C07": " Event-loop layer (E7): the gate — a new user request is taken only when the window has room and no collision is pending, and is taken at the same virtual instant the ack frees it.",
+  "C10": " Event-loop layer (E7): batches of 0..12 broker packets per write (crossing the 10-packet read batch): Incoming events are exactly the wire packets in order, Outgoing announcements are exactly what the broker decodes, bytes are flushed before poll() hands events out.",
+  "C11": " Event-loop layer (E7): on resumed connections every in-flight publish and pending PUBREL precedes any never-sent request (original order for v4 QoS 1 acked oldest-first, also after failures during the replay); after a session-less CONNACK nothing carried over is sent.",
+}.items():
+    e, t, text, note, ref = CLAIMED[_p]
+    CLAIMED[_p] = (e + " + " + E7, t + "; scripted-broker event-loop sessions under virtual time with byte-exact fault injection", text.replace(" The event-loop layer (crash points in bytes, channel backlog; E7) is being added.", "").replace(" The event-loop gate (E7) is being added.", "").replace(" The wire/batch layer (E7) is being added.", "").replace(" The wire-level clauses (retransmit first, no session => start clean; E7) are being added.", "") + _extra, note + " E7 trusts hook H6 (in-memory connector) and tokio's paused clock; select! order is seeded per case. Known finding K2 (carried channel requests bypass flow control) excluded by construction and probed.", ref)
+CLAIMED["C18"] = (E7, "property-based testing (proptest) of rumqttc EventLoop v4/v5 under tokio's paused clock with a scripted broker + exhaustive enumeration of reply phase offsets",
+   "Keep-alive K in {1,2,5,30} s (v5 below 5 s through the CONNACK server keep alive), per-ping reply delay in [0,K) at ms granularity or silence from ping j on, user / broker traffic in either direction, K = 0, handshakes that never complete: gaps CONNACK->ping->ping <= K; a silent broker is reported (AwaitPingResp) within [T+K, T+2K] of the unanswered ping; no keep-alive error while every reply takes < K; no PINGREQ for K = 0; an incomplete handshake is reported at exactly the connection timeout. All (d1,d2) phase offsets on a 100 ms grid for K in {1,2} are enumerated. Exploration otherwise.",
+   "Trusts hook H6 and the paused tokio clock (all wake-ups in-process, so virtual timestamps are exact).", "§5 C18")
+
 NOT_YET = "check not built yet in this revision of /verif (under construction; see DESIGN.md §5 for the planned generator and oracle)"
 
 def main():
@@ -118,6 +131,7 @@ def main():
             {"name": "E2 topic", "path": "harness/src/topic.rs", "serves_properties": ["C12"], "kind_free_text": "reference matcher + exhaustive enumerator + proptest"},
             {"name": "E3 commitlog", "path": "harness/src/commitlog.rs", "serves_properties": ["C13"], "kind_free_text": "append-history model + op interpreter + proptest + short-sequence enumerator"},
             {"name": "E1 codec", "path": "harness/src/codec/", "serves_properties": ["C04", "C05"], "kind_free_text": "neutral packet model, generators, 4 codec adapters, reference framer/encoder/decoder, chunked stream drivers"},
+            {"name": "E7 clientloop", "path": "harness/src/clientloop/", "serves_properties": ["C02", "C07", "C10", "C11", "C18"], "kind_free_text": "rumqttc EventLoop v4/v5 over an in-memory transport (hook H6), paused clock, scripted broker with byte-exact fault injection, log oracle"},
             {"name": "E6 clientstate", "path": "harness/src/clientstate/", "serves_properties": ["C02", "C07", "C10", "C11"], "kind_free_text": "drivers for rumqttc MqttState v4/v5, reference model of accepted publishes, op interpreter"},
             {"name": "E4 brokersim", "path": "harness/src/brokersim/", "serves_properties": ["C01", "C03", "C06", "C08", "C09", "C14", "C15", "C16", "C17", "C19", "C20"], "kind_free_text": "deterministic single-threaded driver of the real Router (hooks H1/H2/H4), simulated clients, reference broker model, proptest histories"},
         ],
